@@ -35,8 +35,8 @@ CONFIGS = [("plain", None, False), ("bgzf", "standard", False), ("bgzf", "tiny",
 
 
 def plan(tier):
-    return {"cases": 96 if tier == "quick" else 640, "shards": 16,
-            "shard_budget_s": 500 if tier == "quick" else 3000}
+    return {"cases": 96 if tier == "quick" else 960, "shards": 16,
+            "shard_budget_s": 500 if tier == "quick" else 3300}
 
 
 def required(tier):
